@@ -3,7 +3,7 @@
        the default graph written out: [prepare] is idempotent, so the explicit document gives the same rules;
    (2) a multi-valued predicate-object map and its split into one map per (predicate, object) pair give the same rules. *)
 From Coq Require Import Lia String.
-From Morph Require Import Base.UStr Gen.Tables Model.Terms Model.Data Model.Engine Model.Mapping Proofs.DataP Proofs.RowwiseP.
+From Morph Require Import Base.UStr Gen.Tables Model.Terms Model.Data Model.Engine Model.Mapping Proofs.DataP Proofs.GroupingP Proofs.RowwiseP.
 Local Open Scope N_scope.
 
 Definition prepare_tm (t : tmapdef) : tmapdef := complete_default_graph (sgraphs_to_pom (class_to_pom t)).
@@ -281,4 +281,29 @@ Proof.
   rewrite E2.
   assert (E3 : tm_ids (map split_tm pd) = tm_ids pd) by (unfold tm_ids; rewrite map_map; apply map_ext; reflexivity).
   now rewrite E3, map_length.
+Qed.
+
+(* ---------------------------------------------------------------- assertedness (C13) *)
+Lemma Forall2_in_r {A B} (R : A -> B -> Prop) l ys y : Forall2 R l ys -> In y ys -> exists x, In x l /\ R x y.
+Proof. induction 1 as [|a b l ys Hab F IH]; intros Hin; [contradiction|]. destruct Hin as [<-|Hin]; [exists a; split; auto; now left|]. destruct (IH Hin) as (x & Hx & Rx). exists x. split; auto. now right. Qed.
+Lemma gen_asserted t a stt preds rows graphs r :
+  In r (gen (mk_rule t a stt) preds rows graphs) -> r_asserted r = a /\ r_tm r = t_id t.
+Proof.
+  unfold gen. intro H. apply in_flat_map in H as (pm & _ & H). apply in_flat_map in H as ([[o ott] [[ld ldk] ldv]] & _ & H).
+  apply in_flat_map in H as (gm & _ & H). destruct H as [<-|[]]. split; reflexivity.
+Qed.
+(* every rule normalised from a triples map carries that map's assertedness: a map declared rml:NonAssertedTriplesMap (or
+   a map without predicate-object map) yields only non-asserted rules *)
+Theorem base_rules_asserted d t rs r : base_rules_of d t = Ok rs -> In r rs ->
+  r_asserted r = negb (t_nonasserted t) && negb (match t_poms t with [] => true | _ => false end) /\ r_tm r = t_id t.
+Proof.
+  rewrite base_rules_unfold. cbv zeta. destruct (negb (valid_subject_tt _)); [discriminate|].
+  destruct (t_poms t) as [|p ps] eqn:Ep.
+  - intro H. injection H as <-. intros [<-|[]]. split; reflexivity.
+  - set (a := negb (t_nonasserted t) && negb false). set (stt := tt_final _).
+    destruct (rmap_all (per_pom d (mk_rule t a stt)) (p :: ps)) as [l|e] eqn:E; simpl; [|discriminate].
+    intro H. injection H as <-. intro Hin. apply in_concat in Hin as (x & Hx & Hr).
+    apply rmap_all_ok in E. destruct (Forall2_in_r _ _ _ _ E Hx) as (p0 & _ & Hp0).
+    rewrite per_pom_guard in Hp0. destruct (pom_ok d p0); [|discriminate]. injection Hp0 as <-.
+    unfold pom_rules in Hr. now apply gen_asserted in Hr.
 Qed.
